@@ -282,6 +282,25 @@ func (t *Tree) Generate(inv Invocation, tag string) (*GenResult, error) {
 	case "absslash":
 		cwd = t.Base
 		args = append(args, inv.Dir+"/")
+	case "symlink":
+		// the same directory reached through a symbolic link next to it
+		link := inv.Dir + "_lnk"
+		os.Remove(link)
+		if err := os.Symlink(filepath.Base(inv.Dir), link); err != nil {
+			return nil, Infra("symlink: %v", err)
+		}
+		defer os.Remove(link)
+		cwd = link
+		args = append(args, ".")
+	case "symlinkrel":
+		link := inv.Dir + "_lnk"
+		os.Remove(link)
+		if err := os.Symlink(filepath.Base(inv.Dir), link); err != nil {
+			return nil, Infra("symlink: %v", err)
+		}
+		defer os.Remove(link)
+		cwd = filepath.Dir(inv.Dir)
+		args = append(args, filepath.Base(link))
 	default:
 		return nil, Infra("unknown cwd mode %q", inv.CwdMode)
 	}
